@@ -13,7 +13,8 @@ export GOFLAGS=-mod=mod GOPROXY=off GOSUMDB=off GOTOOLCHAIN=local
 (cd "$scratch" && go build ./...) || { echo "$name BUILD-FAILED"; exit 3; }
 export VERIF_WORK=${VERIF_WORK:-$root/.work3}
 bad=""
-for id in C01 C02 C03 C04 C05 C06 C07 C08 C09 C10 C11 C12 C13 C14 C15 C16 C17 C18; do
+ids=${BENIGN_IDS:-C01 C02 C03 C04 C05 C06 C07 C08 C09 C10 C11 C12 C13 C14 C15 C16 C17 C18}   # BENIGN_IDS: only these checks
+for id in $ids; do
   out=$(VERIF_REPO="$scratch" "$root/check" $id quick 2>&1); code=$?
   if [ $code -ne 0 ]; then
     bad="$bad $id(exit $code)"
@@ -21,4 +22,4 @@ for id in C01 C02 C03 C04 C05 C06 C07 C08 C09 C10 C11 C12 C13 C14 C15 C16 C17 C1
     echo "$out" | grep -E "^----|INCONCLUSIVE|BUILD" | head -2 | cut -c1-600
   fi
 done
-[ -z "$bad" ] && echo "$name silent on all 18 checks" || echo "$name alarms:$bad"
+[ -z "$bad" ] && echo "$name silent on all $(echo $ids | wc -w) checks" || echo "$name alarms:$bad"
